@@ -1395,6 +1395,22 @@ fn com_lin_case(ctx: &ChildCtx, sh: &mut Shard, idx: u64, r: &mut CRng) {
             }
         }
     }
+    for vd in [VecDesc::fixed("zs", 0, 4, n, 32), VecDesc::fixed("ss", 4 + 32 * n, 4, n, 32)] {
+        for (what, b2) in vd.shape_variants(&rb) {
+            let class = what.rsplit('.').next().unwrap_or("").to_string();
+            match mk(&ch, &b2) {
+                Some(p2) => {
+                    sh.hit(&format!("shape.{}.{}", name, class));
+                    reject(sh, "response.shape", &format!("response.{}", what), ver(&stmt, &p2, &dom));
+                }
+                None => {
+                    sh.evaluations += 1;
+                    sh.hit("reject.expected");
+                    sh.hit(&format!("shape.{}.{}.undeserializable", name, class));
+                }
+            }
+        }
+    }
     sh.nontrivial(fnv(&rb));
 }
 
@@ -1866,6 +1882,12 @@ pub fn floors(s: u64) -> Vec<(String, u64)> {
     }
     for k in ["label", "content", "label_split", "label_message_split", "collection_split", "each_split", "message_split"] {
         v.push((format!("framing.v1.{}", k), 100 * s));
+    }
+    for (n, k) in [("aggregate_dlog", 20), ("com_eq_sig", 20), ("ps_sig_known", 20), ("vcom_eq", 20), ("enc_trans", 20), ("com_lin", 20), ("and(and(com_eq,aggregate_dlog),com_eq_sig)", 20), ("replicate(com_eq)", 15), ("replicate(dlog)", 15)] {
+        for c in ["appended", "removed", "duplicated"] {
+            v.push((format!("shape.{}.{}", n, c), k * s));
+        }
+        v.push((format!("perturb.{}.response.shape", n), 3 * k * s));
     }
     v.push(("cheat.com_enc_eq.adaptive_generator".into(), 20 * s));
     v.push(("context.state_agrees".into(), 200 * s));
